@@ -294,6 +294,10 @@ def _trust_tie(ctx, cases):
     runs = []
     for c in cases:
         real, rec = _run_trust_recorded(c)
+        if any((not np.all(np.isfinite(st))) or (not math.isfinite(pf)) for st, _, pf in rec):
+            # the sub-problem solver produced inf/NaN (zero gradient or zero curvature): outside the rational model
+            ctx.stat("trust_nonfinite_subproblem_answer")
+            continue
         runs.append((c, real, rec))
     outs = ctx.model(DRIVER, [_trust_model_line(c, rec) for c, _, rec in runs]) if runs else []
     for (c, real, rec), m in zip(runs, outs):
